@@ -253,4 +253,196 @@ theorem acceptLoop_no_panic : ∀ (fuel : Nat) (t : FT) (n : Nat), t.s.length < 
 theorem accept_no_panic (s : Bytes) : ∀ p, accept s ≠ .panic p :=
   acceptLoop_no_panic _ _ _ (by simp)
 
+/-! ### Outcomes; several connections -/
+
+theorem adapterLoop_not_err : ∀ (fuel : Nat) (t : FT) (d : Nat) (e : Err), adapterLoop fuel t d ≠ .err e := by
+  intro fuel
+  induction fuel with
+  | zero => intro t d e h; unfold adapterLoop at h; cases h
+  | succ k ih =>
+    intro t d e
+    unfold adapterLoop
+    split
+    · intro h; cases h
+    · intro h; cases h
+    · intro h; cases h
+    · split
+      · exact ih _ _ e
+      · intro h; cases h
+      · intro h; cases h
+
+theorem acceptLoop_not_err : ∀ (fuel : Nat) (t : FT) (n : Nat) (e : Err), acceptLoop fuel t n ≠ .err e := by
+  intro fuel
+  induction fuel with
+  | zero => intro t d e h; unfold acceptLoop at h; cases h
+  | succ k ih =>
+    intro t d e
+    unfold acceptLoop
+    split
+    · intro h; cases h
+    · exact ih _ _ e
+    · intro h; cases h
+    · intro h; cases h
+
+/-- The adapter read loop always ends in a close of its own connection. -/
+theorem adapterRecv_closes (s : Bytes) : ∃ e, adapterRecv s = .ok e := by
+  cases h : adapterRecv s with
+  | ok e => exact ⟨e, rfl⟩
+  | err e => exact absurd h (adapterLoop_not_err _ _ _ e)
+  | panic p => exact absurd h (adapterRecv_no_panic s p)
+
+theorem accept_returns (s : Bytes) : ∃ e, accept s = .ok e := by
+  cases h : accept s with
+  | ok e => exact ⟨e, rfl⟩
+  | err e => exact absurd h (acceptLoop_not_err _ _ _ e)
+  | panic p => exact absurd h (accept_no_panic s p)
+
+theorem adapterCause_ok (s : Bytes) : ∃ c, adapterCause s = .ok c := by
+  obtain ⟨e, he⟩ := adapterRecv_closes s
+  exact ⟨e.cause, by unfold adapterCause; rw [he]⟩
+
+theorem acceptCause_ok (s : Bytes) : ∃ c, acceptCause s = .ok c := by
+  obtain ⟨e, he⟩ := accept_returns s
+  exact ⟨e.ret, by unfold acceptCause; rw [he]⟩
+
+/-- One connection's bytes: the process does not crash, every other connection is untouched, and the
+connection itself is closed exactly once, with the receiver's cause appended — or, when it was closed
+already, nothing happens at all. -/
+theorem recvOn_spec (recv : Bytes → Res (Option Err)) (hr : ∀ s, ∃ c, recv s = .ok c)
+    (i : Nat) (s : Bytes) (y : Sys) (hy : y.crashed = false) :
+    (recvOn recv i s y).crashed = false ∧
+    (recvOn recv i s y).conns.length = y.conns.length ∧
+    (∀ j, j ≠ i → (recvOn recv i s y).conns[j]? = y.conns[j]?) ∧
+    (∀ c, y.conns[i]? = some c →
+      (c.isOpen = false → (recvOn recv i s y).conns[i]? = some c) ∧
+      (c.isOpen = true → ∃ cause, recv s = .ok cause ∧
+        (recvOn recv i s y).conns[i]? = some ⟨false, c.causes ++ [cause]⟩)) := by
+  obtain ⟨cause, hc⟩ := hr s
+  unfold recvOn
+  rw [if_neg (by simp [hy])]
+  cases hi : y.conns[i]? with
+  | none =>
+    refine ⟨hy, rfl, fun _ _ => rfl, ?_⟩
+    intro c h; cases h
+  | some c =>
+    dsimp only
+    cases ho : c.isOpen with
+    | false =>
+      have hcl : (!false) = true := rfl
+      rw [if_pos hcl]
+      refine ⟨hy, rfl, fun _ _ => rfl, ?_⟩
+      intro c' h
+      cases h
+      exact ⟨fun _ => hi, fun h => (by rw [ho] at h; cases h)⟩
+    | true =>
+      have hcl : (!true) = false := rfl
+      simp only [hcl, Bool.false_eq_true, if_false, hc]
+      refine ⟨hy, (by simp), ?_, ?_⟩
+      · intro j hj
+        simp only [List.getElem?_set]
+        rw [if_neg (by omega)]
+      · intro c' h
+        cases h
+        refine ⟨fun h => (by rw [ho] at h; cases h), fun _ => ⟨cause, rfl, ?_⟩⟩
+        have hlt : i < y.conns.length := by
+          rcases Nat.lt_or_ge i y.conns.length with h | h
+          · exact h
+          · rw [List.getElem?_eq_none h] at hi; cases hi
+        simp [hlt]
+
+/-- Any number of deliveries to any connections, starting from `n` fresh connections: the process never
+crashes and no connection has published more than one cause. -/
+def deliverAll (recv : Bytes → Res (Option Err)) : Sys → List (Nat × Bytes) → Sys
+  | y, [] => y
+  | y, (i, s) :: t => deliverAll recv (recvOn recv i s y) t
+
+def SysInv (y : Sys) : Prop :=
+  y.crashed = false ∧ ∀ c ∈ y.conns, (c.isOpen = true → c.causes = []) ∧ (c.isOpen = false → c.causes.length = 1)
+
+theorem recvOn_inv (recv : Bytes → Res (Option Err)) (hr : ∀ s, ∃ c, recv s = .ok c)
+    (i : Nat) (s : Bytes) (y : Sys) (hy : SysInv y) : SysInv (recvOn recv i s y) := by
+  obtain ⟨h1, h2, h3, h4⟩ := recvOn_spec recv hr i s y hy.1
+  refine ⟨h1, ?_⟩
+  intro c hc
+  obtain ⟨j, hj, hjc⟩ := List.mem_iff_getElem.mp hc
+  have hj' : (recvOn recv i s y).conns[j]? = some c := by rw [List.getElem?_eq_getElem hj, hjc]
+  by_cases hji : j = i
+  · subst hji
+    have hlt : j < y.conns.length := by omega
+    have hold : y.conns[j]? = some y.conns[j] := List.getElem?_eq_getElem hlt
+    have hmem : y.conns[j] ∈ y.conns := List.getElem_mem hlt
+    obtain ⟨ha, hb⟩ := h4 _ hold
+    cases ho : (y.conns[j]).isOpen with
+    | false =>
+      have := ha ho
+      rw [this] at hj'
+      cases hj'
+      exact hy.2 _ hmem
+    | true =>
+      obtain ⟨cause, _, hnew⟩ := hb ho
+      rw [hnew] at hj'
+      cases hj'
+      have := (hy.2 _ hmem).1 ho
+      exact ⟨fun h => (by cases h), fun _ => (by simp [this])⟩
+  · rw [h3 j hji] at hj'
+    exact hy.2 c (List.mem_of_getElem? hj')
+
+theorem deliverAll_inv (recv : Bytes → Res (Option Err)) (hr : ∀ s, ∃ c, recv s = .ok c) :
+    ∀ (ds : List (Nat × Bytes)) (y : Sys), SysInv y → SysInv (deliverAll recv y ds) := by
+  intro ds
+  induction ds with
+  | nil => intro y h; exact h
+  | cons d t ih =>
+    intro y h
+    obtain ⟨i, s⟩ := d
+    exact ih _ (recvOn_inv recv hr i s y h)
+
+/-! ### STOMP message loop -/
+
+theorem stomp_recv_total (cb : Bytes → Bool) (w : Stomp) (m : Bytes) :
+    ∃ w', Stomp.recv cb w m = .ok w' ∧ w'.alive = w.alive ∧ w.delivered ≤ w'.delivered := by
+  unfold Stomp.recv
+  split
+  · exact ⟨w, rfl, rfl, Nat.le_refl _⟩
+  · split
+    · exact ⟨w, rfl, rfl, Nat.le_refl _⟩
+    · rename_i h4
+      have : sliceFrom m 4 = .ok (m.drop 4) := by
+        unfold sliceFrom
+        rw [if_pos (by omega)]
+        rfl
+      rw [this]
+      dsimp only
+      split
+      · exact ⟨_, rfl, rfl, by simp⟩
+      · exact ⟨_, rfl, rfl, by simp⟩
+
+theorem stomp_recvAll_total (cb : Bytes → Bool) : ∀ (ms : List Bytes) (w : Stomp),
+    ∃ w', Stomp.recvAll cb w ms = .ok w' ∧ w'.alive = w.alive := by
+  intro ms
+  induction ms with
+  | nil => intro w; exact ⟨w, rfl, rfl⟩
+  | cons m t ih =>
+    intro w
+    obtain ⟨w1, h1, ha, _⟩ := stomp_recv_total cb w m
+    obtain ⟨w2, h2, hb⟩ := ih w1
+    refine ⟨w2, ?_, by rw [hb, ha]⟩
+    simp only [Stomp.recvAll, h1, h2]
+
+theorem stomp_recv_wellformed (cb : Bytes → Bool) (w : Stomp) (m : Bytes) (ha : w.alive = true)
+    (h4 : 4 ≤ m.length) (hcb : cb (m.drop 4) = true) :
+    Stomp.recv cb w m = .ok { w with delivered := w.delivered + 1, acked := w.acked + 1 } := by
+  unfold Stomp.recv
+  rw [ha]
+  have hcl : (!true) = false := rfl
+  rw [hcl]
+  rw [if_neg (by simp), if_neg (by omega)]
+  have : sliceFrom m 4 = .ok (m.drop 4) := by
+    unfold sliceFrom
+    rw [if_pos (by omega)]
+    rfl
+  rw [this]
+  dsimp only
+  rw [if_pos hcb]
+
 end FV.Recv2
